@@ -161,8 +161,8 @@ func (p *Program) checkCastSites(solverName string, timeoutMs int) ([]Violation,
 		s.send(layoutFnCmp("layS", site.From, lt))
 		s.send(layoutFnCmp("layT", site.To, lt))
 		s.send("(declare-const off (_ BitVec 16))\n")
-		fmt.Fprintf(s.in, "(assert (bvult off #x%04x))\n", site.To.size)
-		fmt.Fprintf(s.in, "(assert (or (bvule #x%04x off) (not (= (layS off) (layT off)))))\n", site.From.size)
+		s.send(fmt.Sprintf("(assert (bvult off #x%04x))\n", site.To.size))
+		s.send(fmt.Sprintf("(assert (or (bvule #x%04x off) (not (= (layS off) (layT off)))))\n", site.From.size))
 		r := s.Check()
 		id := fmt.Sprintf("cast/%s/%s->%s", site.Fn, shortType(site.From.name), shortType(site.To.name))
 		descr = append(descr, id)
